@@ -681,7 +681,11 @@ class NUMERIC(FieldType):
 
         dc = self.decimal_places
         if dc and isinstance(x, (string_type, Decimal)):
-            x = Decimal(x) * (10 ** dc)
+            try:
+                x = Decimal(x) * (10 ** dc)
+            except ArithmeticError:
+                # decimal.InvalidOperation for text that is not a number
+                raise ValueError("%r is not a valid decimal number" % (x,))
         elif isinstance(x, Decimal):
             raise TypeError("Can't index a Decimal object unless you specified "
                             "decimal_places on the field")
